@@ -2,6 +2,7 @@
 //! trace output, storage construction.
 
 pub mod config;
+pub mod rp;
 
 use std::collections::HashMap;
 use std::fs::File;
